@@ -11,6 +11,9 @@ import (
 
 func init() {
 	register(&Rule{ID: "FLAGPAIR-1", Doc: "two flags are combined the same way everywhere: a pair of single flags that some site requires together (`Get(A) && Get(B)`) is nowhere tested as any-of (`Get(A|B)`, which is true when either is set) outside a negation — the `simplification` of a conjunction into one masked Get silently weakens it", Run: ruleFLAGPAIR1})
+	register(&Rule{ID: "NS-4", Doc: "a namespace is disabled on the object that was just opened, never on its parent: in every function, each Tokens.Last.DisableNamespace() is preceded on all paths by the coder call that opens the object (WriteToken / ReadToken in the same function); `Last` is the enclosing frame until then", Run: ruleNS4})
+	register(&Rule{ID: "UNSUP-1", Doc: "`unsupported` is recognised the same way everywhere: every test of an error against errors.ErrUnsupported in package json uses errors.Is (the dispatcher that falls through to the next candidate does); an identity comparison in the sanitiser of non-skippable functions would let a wrapped ErrUnsupported through and the dispatcher would then skip a function that already consumed input", Run: ruleUNSUP1})
+	register(&Rule{ID: "CTRL-1", Doc: "the control-character boundary is drawn in one place: every ordered comparison of a byte, rune or code unit with the constant 0x20 (' ') in jsonwire/jsontext separates `< 0x20` from `>= 0x20`; a comparison that puts 0x20 itself on the control side (`> ' '`, `<= ' '`) disagrees with the escape table and the other recognisers", Run: ruleCTRL1})
 	register(&Rule{ID: "WITHIN-1", Doc: "the `inside a user (un)marshal call` mark is always taken off again: on every path from Flags.Set(WithinArshalCall|1) to a return of the same function, Flags.Set(WithinArshalCall|0) (or Clear) is executed; otherwise a caller-owned coder stays locked and a later Reset panics", Run: ruleWITHIN1})
 	register(&Rule{ID: "UNWRITE-3", Doc: "taking back an empty member removes whatever separators were written, whatever options produced them: in UnwriteEmptyObjectMember none of the Trim* steps between cutting the value and storing the buffer back is conditional on an option", Run: ruleUNWRITE3})
 	register(&Rule{ID: "INDEX-1", Doc: "a search result is tested against `not found`, not against position zero: the result of bytes/strings Index* is never compared with `> 0` or `<= 0` (a match at offset 0 would count as no match)", Run: ruleINDEX1})
@@ -579,4 +582,164 @@ func fieldOwner(p *Program, fv *types.Var) string {
 		}
 	}
 	return "?"
+}
+
+// ---- NS-4 ----------------------------------------------------------------------
+
+func ruleNS4(c *Ctx) {
+	p := c.P
+	n := 0
+	for _, f := range p.FuncsIn("json", "v1") {
+		if f.Body() == nil {
+			continue
+		}
+		info := f.Info()
+		has := false
+		InspectNoLit(f.Body(), func(nd ast.Node) bool {
+			if call, ok := nd.(*ast.CallExpr); ok {
+				if _, ok := MethodCall(info, call, "jsontext", "stateEntry", "DisableNamespace"); ok {
+					has = true
+				}
+			}
+			return true
+		})
+		if !has {
+			continue
+		}
+		type st struct{ opened bool }
+		k := 0
+		bad := map[token.Pos]bool{}
+		sites := map[token.Pos]bool{}
+		fl := &Flow[st]{Fn: f}
+		visit := func(nd ast.Node, s st) st {
+			for _, call := range CallsIn(nd) {
+				if _, ok := MethodCall(info, call, "jsontext", "stateEntry", "DisableNamespace"); ok {
+					sites[call.Pos()] = true
+					if !s.opened {
+						bad[call.Pos()] = true
+					}
+					continue
+				}
+				if cf := Callee(info, call); cf != nil && cf.Pkg() != nil && cf.Pkg().Path() == pkgAlias["jsontext"] && (cf.Name() == "WriteToken" || cf.Name() == "ReadToken") {
+					s.opened = true
+				}
+			}
+			return s
+		}
+		fl.Node = func(nd ast.Node, s st) []st {
+			s = visit(nd, s)
+			if _, ok := nd.(*ast.ReturnStmt); ok {
+				return nil
+			}
+			return []st{s}
+		}
+		fl.Leaf = func(e ast.Expr, s st) (t, fs []st) { s = visit(e, s); return []st{s}, []st{s} }
+		fl.Run(st{})
+		var ps []token.Pos
+		for ps1 := range sites {
+			ps = append(ps, ps1)
+		}
+		sort.Slice(ps, func(i, j int) bool { return ps[i] < ps[j] })
+		for _, ps1 := range ps {
+			n++
+			k++
+			c.Oblige(fmt.Sprintf("disable-after-open:%s#%d", f.Name, k), ps1, !bad[ps1], "DisableNamespace() is reached on a path where this function has not yet written/read the token that opens the object: Tokens.Last is still the enclosing object, whose duplicate-name check would be switched off")
+		}
+	}
+	c.Floor("DisableNamespace call sites", n, 5)
+}
+
+// ---- UNSUP-1 -------------------------------------------------------------------
+
+func ruleUNSUP1(c *Ctx) {
+	p := c.P
+	nIs, k := 0, 0
+	isUnsup := func(info *types.Info, e ast.Expr) bool {
+		o := IdentOrSelObj(info, e)
+		return o != nil && o.Pkg() != nil && o.Pkg().Path() == "errors" && o.Name() == "ErrUnsupported"
+	}
+	for _, f := range p.FuncsIn("json", "v1") {
+		if f.Body() == nil {
+			continue
+		}
+		info := f.Info()
+		InspectNoLit(f.Body(), func(nd ast.Node) bool {
+			switch x := nd.(type) {
+			case *ast.CallExpr:
+				if FuncCall(info, x, "errors", "Is") && len(x.Args) == 2 && isUnsup(info, x.Args[1]) {
+					nIs++
+				}
+			case *ast.BinaryExpr:
+				if (x.Op == token.EQL || x.Op == token.NEQ) && (isUnsup(info, x.X) || isUnsup(info, x.Y)) {
+					k++
+					c.Violation(fmt.Sprintf("identity-test:%s#%d", f.Name, k), x.Pos(), "`"+exprString(x)+"` compares with errors.ErrUnsupported by identity while the dispatcher uses errors.Is: a wrapped ErrUnsupported is treated differently by the two")
+				}
+			}
+			return true
+		})
+	}
+	if k == 0 {
+		c.OK("identity-test", token.NoPos, "")
+	}
+	c.Floor("errors.Is(err, errors.ErrUnsupported) tests", nIs, 6)
+}
+
+// ---- CTRL-1 --------------------------------------------------------------------
+
+func ruleCTRL1(c *Ctx) {
+	p := c.P
+	n := 0
+	for _, f := range p.FuncsIn("jsonwire", "jsontext") {
+		if f.Body() == nil {
+			continue
+		}
+		info := f.Info()
+		k := 0
+		ast.Inspect(f.Body(), func(nd ast.Node) bool {
+			be, ok := nd.(*ast.BinaryExpr)
+			if !ok {
+				return true
+			}
+			op := be.Op
+			var other ast.Expr
+			if v, isC := ConstI64(info, be.Y); isC && v == 0x20 {
+				other = be.X
+			} else if v, isC := ConstI64(info, be.X); isC && v == 0x20 {
+				other = be.Y
+				switch op {
+				case token.LSS:
+					op = token.GTR
+				case token.GTR:
+					op = token.LSS
+				case token.LEQ:
+					op = token.GEQ
+				case token.GEQ:
+					op = token.LEQ
+				}
+			} else {
+				return true
+			}
+			switch op {
+			case token.LSS, token.GEQ, token.GTR, token.LEQ:
+			default:
+				return true
+			}
+			// only character-like operands (byte, rune, uint16 code unit)
+			bt, ok := info.TypeOf(other).Underlying().(*types.Basic)
+			if !ok || bt.Info()&types.IsInteger == 0 {
+				return true
+			}
+			switch bt.Kind() {
+			case types.Uint8, types.Int32, types.Uint16, types.UntypedRune:
+			default:
+				return true
+			}
+			n++
+			k++
+			c.Oblige(fmt.Sprintf("boundary:%s#%d", f.Name, k), be.Pos(), op == token.LSS || op == token.GEQ,
+				"`"+exprString(be)+"` puts U+0020 on the control-character side; everywhere else control characters are `< 0x20`")
+			return true
+		})
+	}
+	c.Floor("comparisons with the control-character boundary", n, 4)
 }
